@@ -48,6 +48,7 @@ type Prog struct {
 	RepoDir   string
 	IfaceContracts map[string]*Contract // pkg.Iface.Method
 	BindErrors []string
+	BindByFunc map[string][]string // binding problems of one function's contract (loop / identifier mismatch)
 	namedTypes map[string]types.Type // pkgname.Type -> type
 	preludeCache map[string]string
 }
